@@ -15,7 +15,9 @@ Generated (Hypothesis supplies four 64-bit words per case; a splitmix64 decoder 
   array    length 1..3000 (so that prange really splits), 1..16 OpenMP threads set at run time with
            omp_set_num_threads of the libgomp the extension is linked against (prange has no num_threads clause, so
            the team size is the OpenMP ICV; the number of OS threads of the process is read back from /proc to prove
-           the team really had that size), frequency array or (modulus, viscosity) arrays, 2 % guard-edge elements.
+           the team really had that size; when it cannot be confirmed - no libgomp, prange removed, other runtime - the
+           case is still judged and only labelled `threads:unverified`, never failed), frequency array or
+           (modulus, viscosity) arrays, 2 % guard-edge elements.
   fixed    documented limits for every model, one batch of 240 points through the *jitted* legacy functions (the
            generated cases use their `.py_func`, so that only one shard pays numba's compile time), one subprocess
            started with OMP_NUM_THREADS=4 in the environment (the way a user sets it).
@@ -30,11 +32,17 @@ Oracles
              |M - mu|/mu <= e/(1-e) + 1e-12  (exact consequence of M = mu/(1+eps), |eps| <= e; DESIGN.md's bound
              2 Gamma(1+alpha)(w tau zeta)^-alpha + 2/(w tau) forgot the Voigt element of Burgers/Sundberg-Cooper and
              is replaced by this one).
-  extreme    |w| < 1e-17, |w| > 1e8 or infinite, mu < 1e-3: the documented limit constants (zero / mu / i inf /
-             Voigt modulus; pinned by Tests/Test_Functions/test_rheology.py for the frequency limits, the mu -> 0
-             limit of the law for the modulus guard), compared exactly.
+  extreme    the documented extreme-value branches (constants_x.pyx: below ~1e-17 rad/s means zero frequency, above
+             1e8 rad/s infinite; values pinned at w = 0 and w = inf by Tests/Test_Functions/test_rheology.py: zero / mu /
+             i inf / Voigt modulus) are compared only a factor >= 10 inside them (|w| <= 1e-18, |w| >= 1e9 or infinite)
+             and for mu, eta in the physical range, with those documented constants, exactly.  Between the physical
+             range and that margin (1e-18..1e-12, 1e2..1e9 rad/s) and for mu outside 1e3..1e13 Pa (incl. the
+             undocumented mu < 1e-3 guard) only the route-consistency clauses are applied, so a moved threshold or a
+             reordered guard is not reported.
   consistent scalar call == vectorize_frequency == vectorize_modulus_viscosity element-wise, bit for bit, for every
-             thread count, and 25 repetitions of the array call under the same team reproduce it bit for bit; every alias of find_rheology returns the class; default-constructed instance == explicit
+             thread count, and 25 repetitions of the array call under the same team reproduce it bit for bit; every alias of
+             find_rheology yields a model that behaves as the named one (bit-equal output on 4 probe points and the
+             case point - behaviour, not class identity); default-constructed instance == explicit
              default arguments; instance after change_args(B) == fresh instance(B), bit for bit.
   legacy     |1/J_legacy - M| <= 1e-12 |M| with voigt_compliance_offset = 1/voigt_modulus_scale, for w > 0 in the
              physical range and outside the legacy functions' own float_eps guards (|eta w| <= 2.2e-16 or
@@ -76,7 +84,7 @@ from hypothesis import strategies as st
 
 from oracles import rheology_mp as R
 from vlib import env
-from vlib.result import Collector, repo_call
+from vlib.result import Collector, HarnessError, repo_call
 
 # libgomp reads these when it is loaded (first import of a TidalPy extension, which happens lazily in _mods()):
 # without them the 2..16 team threads of every array case busy-wait at the barrier (measured: 15 CPU-minutes per
@@ -127,6 +135,7 @@ _M64 = 2 ** 64 - 1
 # ---------------------------------------------------------------------------------------------------------
 
 _cache = {}
+_PROBES = [(1e-6, 5.0e10, 1.0e18), (3.3e-9, 7.7e9, 1.2e21), (12.5, 4.4e4, 8.8e3), (2.0e-4, 1.0e11, 3.0e14)]
 
 
 def _mods():
@@ -145,9 +154,15 @@ def _mods():
 
 
 def _gomp():
+    """The process-wide GNU OpenMP runtime, or None when it cannot be loaded (extension built without OpenMP or
+    against another runtime): the array cases then still run, with whatever team size the build uses, and are
+    labelled `threads:unverified` - the statement quantifies over thread counts, it does not demand OpenMP."""
     if 'gomp' not in _cache:
-        g = ctypes.CDLL('libgomp.so.1')
-        g.omp_get_max_threads.restype = ctypes.c_int
+        try:
+            g = ctypes.CDLL('libgomp.so.1')
+            g.omp_get_max_threads.restype = ctypes.c_int
+        except (OSError, AttributeError):
+            g = None
         _cache['gomp'] = g
     return _cache['gomp']
 
@@ -311,7 +326,7 @@ def fixed_cases(tier):
     out = []
     for model in MODELS:
         args = list(R.DEFAULT_ARGS[model])
-        for w in (0.0, -0.0, math.inf, -math.inf, 1e-6, -1e-6, 1e-18, 2e8, 1e-17, 1e8):
+        for w in (0.0, -0.0, math.inf, -math.inf, 1e-6, -1e-6, 1e-18, -1e-19, 1e9, 2e8, 1e-17, 1e8):
             for alias in R.ALIASES[model]:
                 out.append({'kind': 'scalar', 'model': model, 'args': args, 'w': _js(w), 'mu': 5.0e10, 'eta': 1.0e18,
                             'via': alias, 'change_from': None})
@@ -334,7 +349,7 @@ def fixed_cases(tier):
 def required_labels(tier):
     lb = ['model:' + m for m in MODELS]
     lb += ['window:transition', 'window:low', 'window:high', 'edge:zero_frequency', 'edge:inf_frequency', 'edge:tiny_frequency',
-           'edge:huge_frequency', 'edge:at_min_frequency', 'edge:at_max_frequency', 'edge:small_modulus', 'negative_frequency',
+           'edge:huge_frequency', 'edge:near_frequency_guard', 'edge:small_modulus', 'negative_frequency',
            'beyond_physical_range', 'route:change_args', 'route:alias', 'array:frequency', 'array:modvisc',
            'legacy:compared', 'legacy:guard_excluded', 'legacy:jitted', 'highfreq:checked', 'omp_env']
     lb += ['threads:%d' % k for k in range(1, 17)]
@@ -512,14 +527,20 @@ def _evaluate_scalar(case):
     w, mu, eta = _fl(case['w']), float(case['mu']), float(case['eta'])
     c = Collector(labels=['model:' + model], nontrivial=False)
     # ---- routes to an instance
-    with repo_call('find_rheology'):
-        cls = find(case['via'])
     c.label('route:alias')
-    c.check(cls is getattr(rm, model), {'model': model, 'clause': 'consistent', 'what': 'lookup'},
-            'find_rheology(%r) returned %r, expected %s' % (case['via'], cls, model))
     with repo_call('construct'):
         ref = _instance(model, args)
+    with repo_call('find_rheology'):
         inst = _instance(model, args, via=case['via'], change_from=case.get('change_from'))
+    # the looked-up model must *behave* as the named one (no identity requirement): same output on a probe set
+    with repo_call(model + '.__call__'):
+        probe_bad = [(pw, pm, pe, complex(ref(pw, pm, pe)), complex(inst(pw, pm, pe))) for pw, pm, pe in _PROBES
+                     if not _same_bits(ref(pw, pm, pe), inst(pw, pm, pe))]
+    c.check(not probe_bad, {'model': model, 'clause': 'consistent',
+                            'what': 'change_args' if case.get('change_from') is not None else 'lookup'},
+            'find_rheology(%r)%s does not behave as %s%r: at (w, mu, eta) = %r direct %r, looked-up %r'
+            % ((case['via'], '' if case.get('change_from') is None else ' + change_args from %r' % (case['change_from'],),
+                model, tuple(args)) + ((probe_bad[0][:3], probe_bad[0][3], probe_bad[0][4]) if probe_bad else ((), 0, 0))))
     if case.get('change_from') is not None:
         c.label('route:change_args')
     with repo_call(model + '.__call__'):
@@ -541,29 +562,24 @@ def _evaluate_scalar(case):
     c.check(_same_bits(got, o2[0]), {'model': model, 'clause': 'consistent', 'what': 'vectorize_modulus_viscosity'},
             '%s: scalar %r vs vectorize_modulus_viscosity %r at (w=%r, mu=%r, eta=%r)' % (model, got, complex(o2[0]), w, mu, eta))
     # ---- value
-    ext = R.extreme_value(model, w, mu, eta, args)
     wa = abs(w)
+    ext = R.documented_limit(model, w, mu, eta, args)
     if ext is not None:
-        if wa < R.MIN_FREQUENCY:
-            c.label('edge:zero_frequency' if wa == 0 else 'edge:tiny_frequency')
-        elif wa > R.MAX_FREQUENCY:
-            c.label('edge:inf_frequency' if math.isinf(wa) else 'edge:huge_frequency')
-        else:
-            c.label('edge:small_modulus')
-        c.check(got.real == ext.real and got.imag == ext.imag,
-                {'model': model, 'clause': 'extreme', 'what': [k for k in c.labels if k.startswith('edge:')][0]},
+        # documented extreme-value branch, a factor >= 10 inside it, physical mu and eta: the documented constant
+        lb = ('edge:zero_frequency' if wa == 0 else 'edge:tiny_frequency') if wa < 1.0 else \
+             ('edge:inf_frequency' if math.isinf(wa) else 'edge:huge_frequency')
+        c.label(lb)
+        c.check(got.real == ext.real and got.imag == ext.imag, {'model': model, 'clause': 'extreme', 'what': lb},
                 '%s(w=%r, mu=%r, eta=%r; args=%r) = %r; documented limit value %r' % (model, w, mu, eta, args, got, ext))
         return c.result()
-    if wa == R.MIN_FREQUENCY:
-        c.label('edge:at_min_frequency')
-    if wa == R.MAX_FREQUENCY:
-        c.label('edge:at_max_frequency')
+    if mu < 1e3:
+        c.label('edge:small_modulus')
+    if 1e-18 < wa < 1e-16 or 1e7 < wa < 1e9:
+        c.label('edge:near_frequency_guard')
     if w < 0:
         c.label('negative_frequency')
     if not _in_range(w, mu, eta):
-        c.label('beyond_physical_range')
-        c.check(not (math.isnan(got.real) or math.isnan(got.imag)), {'model': model, 'clause': 'passive', 'what': 'nan'},
-                '%s(%r,%r,%r) = %r' % (model, w, mu, eta, got))
+        c.label('beyond_physical_range')       # the statement is silent here: route consistency (above) only
         return c.result()
     wt = wa * eta / mu
     c.label('window:transition' if 0.01 < wt < 100 else ('window:low' if wt <= 0.01 else 'window:high'))
@@ -608,6 +624,8 @@ def _array_inputs(case):
 
 def _set_threads(k):
     g = _gomp()
+    if g is None:
+        return None
     g.omp_set_num_threads(int(k))
     return g.omp_get_max_threads()
 
@@ -646,8 +664,9 @@ def _evaluate_array(case):
     if got_k == k and (k == 1 or nthreads >= k):
         c.label('threads:%d' % k)
     else:
-        c.fail({'clause': 'harness', 'what': 'thread_count_not_in_effect'},
-               'asked for %d OpenMP threads, omp_get_max_threads=%r, OS threads=%r' % (k, got_k, nthreads))
+        # team size could not be confirmed (no libgomp / prange removed / other runtime): coverage information only
+        c.label('threads:unverified')
+        c.nontrivial = False
     c.check(unstable == 0, {'model': model, 'clause': 'consistent', 'what': 'vectorize_not_reproducible'},
             '%s.vectorize_%s with %d threads, n=%d: %d of %d repetitions differ from the first call' % (model, which, k, n, unstable, ARRAY_REPEATS))
     # scalar reference, element by element
@@ -663,7 +682,7 @@ def _evaluate_array(case):
     # three elements against the law as well
     for i in sorted({0, n // 2, n - 1}):
         w, mu, eta = (float(wv[i]), mu0, eta0) if which == 'frequency' else (w0, float(muv[i]), float(etav[i]))
-        if _in_range(w, mu, eta) and R.extreme_value(model, w, mu, eta, args) is None:
+        if _in_range(w, mu, eta):
             _law_clauses(c, model, args, w, mu, eta, complex(out[i]), where='array')
     return c.result()
 
@@ -725,7 +744,7 @@ for model in P.MODELS:
             s = inst(float(wv[i]), 5.0e10, 1.0e18) if which == 'frequency' else inst(1e-6, float(muv[i]), float(etav[i]))
             if not P._same_bits(s, out[i]):
                 bad.append([model, which, i, repr(complex(s)), repr(complex(out[i]))])
-print('RESULT ' + json.dumps({'bad': bad[:10], 'nbad': len(bad), 'max_threads': P._gomp().omp_get_max_threads(),
+print('RESULT ' + json.dumps({'bad': bad[:10], 'nbad': len(bad), 'max_threads': (P._gomp().omp_get_max_threads() if P._gomp() is not None else None),
                               'os_threads': P._os_threads()}))
 '''
 
@@ -739,15 +758,18 @@ def _evaluate_omp_env(case):
     p = subprocess.run([env.PY, '-c', _OMP_CHILD % {'verif': env.VERIF, 'n': n}], env=child_env, stdin=subprocess.DEVNULL,
                        capture_output=True, text=True, timeout=600, cwd=env.VERIF)
     line = [ln for ln in p.stdout.splitlines() if ln.startswith('RESULT ')]
-    if p.returncode != 0 or not line:
-        c.fail({'clause': 'consistent', 'what': 'omp_env_subprocess', 'kind': 'crash'},
-               'subprocess with OMP_NUM_THREADS=%d failed rc=%r\n%s' % (k, p.returncode, (p.stdout + p.stderr)[-1500:]))
+    if p.returncode is not None and p.returncode < 0:
+        c.fail({'clause': 'consistent', 'what': 'omp_env_subprocess', 'kind': 'killed_by_signal'},
+               'subprocess with OMP_NUM_THREADS=%d died with signal %d inside the array helpers\n%s'
+               % (k, -p.returncode, (p.stdout + p.stderr)[-1500:]))
         return c.result()
+    if p.returncode != 0 or not line:
+        raise HarnessError('omp_env child failed rc=%r\n%s' % (p.returncode, (p.stdout + p.stderr)[-1500:]))
     res = json.loads(line[0][7:])
     if res['max_threads'] == k and (k == 1 or res['os_threads'] >= k):
         c.label('threads_env:%d' % k)
     else:
-        c.fail({'clause': 'harness', 'what': 'thread_count_not_in_effect'}, 'child reports %r' % res)
+        c.label('threads_env:unverified')
     c.check(res['nbad'] == 0, {'clause': 'consistent', 'what': 'vectorize_under_OMP_NUM_THREADS'},
             'OMP_NUM_THREADS=%d: %d array element(s) differ from the scalar call: %r' % (k, res['nbad'], res['bad']))
     return c.result()
